@@ -117,9 +117,35 @@ def check(ctx: Ctx) -> None:
     from .c17 import _line_loop, line_as_written
     mp_ = proj.func('merchant_engine.MerchantEngine.parse')
     line_as_written(ctx, 'C19.R3', mp_, _line_loop(ctx, mp_))
+    # `key: value` is cut at the FIRST colon: the value (a pattern taken from a description such as `ACH DEBIT:ACME`) may contain colons of its own
+    loop_ = _line_loop(ctx, mp_)
+    cuts = [c for c in ast.walk(loop_) if isinstance(c, ast.Call) and isinstance(c.func, ast.Attribute) and c.func.attr in ('split', 'rsplit', 'partition', 'rpartition')
+            and c.args and isinstance(c.args[0], ast.Constant) and c.args[0].value == ':']
+    if not cuts:
+        ctx.unknown('C19.R3', mp_, 'the key / value split of a property line (…split(\':\', 1)) was not found in MerchantEngine.parse')
+    for c in cuts:
+        first = (c.func.attr == 'split' and len(c.args) == 2 and isinstance(c.args[1], ast.Constant) and c.args[1].value == 1) or c.func.attr == 'partition'
+        ctx.check(first, 'C19.R3', mp_, 'key-value-cut', 'a property line is cut at its first colon', f'{src(c)!r} does not cut at the first colon: a suggested `match: regex("ACH\\s*DEBIT:ACME")` is '
+                  f'read as an unknown property and the whole rules file is rejected', c)
     # the suggestion is computed from the very description it is listed for
     cd = proj.func('commands.discover.cmd_discover')
     cfl = get_flow(proj, cd)
+    # … and that is the statement text (raw_description), not the cleaned-up display name a rule could never match
+    keys_ = []
+    for n_ in ast.walk(cd.node):
+        if isinstance(n_, ast.Subscript) and isinstance(n_.value, ast.Name) and n_.value.id == 'desc_stats' and isinstance(n_.slice, ast.Name):
+            keys_.append(n_.slice)
+        elif isinstance(n_, ast.Call) and isinstance(n_.func, ast.Attribute) and n_.func.attr == 'setdefault' and isinstance(n_.func.value, ast.Name) \
+                and n_.func.value.id == 'desc_stats' and n_.args and isinstance(n_.args[0], ast.Name):
+            keys_.append(n_.args[0])
+    if not keys_:
+        ctx.unknown('C19.R3', cd, 'the grouping of unknown transactions (desc_stats[<description>]) was not found in cmd_discover')
+    kname = keys_[0].id
+    kdefs = [s_ for s_ in cfl.cfg.stmts() if isinstance(s_, ast.Assign) and any(isinstance(t_, ast.Name) and t_.id == kname for t_ in s_.targets)]
+    ok_ = bool(kdefs) and all(isinstance(s_.value, ast.Call) and isinstance(s_.value.func, ast.Attribute) and s_.value.func.attr == 'get' and s_.value.args
+                              and isinstance(s_.value.args[0], ast.Constant) and s_.value.args[0].value == 'raw_description' for s_ in kdefs)
+    ctx.check(ok_, 'C19.R3', cd, 'grouped-by-statement-text', 'unknown transactions are grouped (and patterns suggested) by their raw statement text',
+              f'the grouping key is {[src(s_.value)[:50] for s_ in kdefs]}: suggestions are derived from the cleaned-up description, which a rule is never matched against', kdefs[0] if kdefs else cd.node)
     for c in cfl.calls('suggest_pattern'):
         lp = [a for a in ancestors(c) if isinstance(a, ast.For)]
         ok = bool(lp) and src(c.args[0]) == 'raw_desc' and 'raw_desc' in src(lp[0].target)
@@ -131,6 +157,41 @@ def r4_contiguous(ctx: Ctx, sp: FuncInfo) -> None:
     import re._constants as sre_c
     fl = get_flow(ctx.proj, sp)
     n = 0
+    # the kept words are turned into regex text by backslash-escaping the metacharacters: the escaped class has to hold every character that means
+    # something in a pattern, or `DISNEY+` is suggested as `DISNEY+` (one or more Y) and no longer matches its own description
+    from ._tables import fold_str, module_value
+    META = set('.*+?^$()[]{}|\\')
+    escs = []
+    for c in fl.calls('sub'):
+        pat_ = repl_ = None
+        if dotted(c.func) == 're.sub' and len(c.args) >= 3:
+            pat_, repl_ = c.args[0], c.args[1]
+        elif isinstance(c.func, ast.Attribute) and isinstance(c.func.value, ast.Name) and len(c.args) >= 2 and (cv_ := module_value(sp.module, c.func.value.id)) is not None \
+                and isinstance(cv_, ast.Call) and dotted(cv_.func) == 're.compile' and cv_.args:
+            pat_, repl_ = cv_.args[0], c.args[0]
+        if pat_ is None or not (isinstance(repl_, ast.Constant) and isinstance(repl_.value, str) and repl_.value.startswith('\\\\') and '\\1' in repl_.value):
+            continue
+        text = fold_str(pat_, sp.module)
+        if text is None:
+            continue
+        try:
+            tree_ = sre_parse.parse(text)
+        except Exception:
+            continue
+        lits = set()
+        for op_, av_ in tree_:
+            if op_ == sre_c.SUBPATTERN:
+                for op2, av2 in av_[3]:
+                    if op2 == sre_c.IN:
+                        lits |= {chr(v_) for o_, v_ in av2 if o_ == sre_c.LITERAL}
+            elif op_ == sre_c.IN:
+                lits |= {chr(v_) for o_, v_ in av_ if o_ == sre_c.LITERAL}
+        escs.append((c, lits))
+    for c, lits in escs:
+        missing = sorted(META - lits)
+        ctx.check(not missing, 'C19.R4', sp, 'escape-class', 'every regex metacharacter of the kept words is escaped',
+                  f'the escaping class lacks {missing}: a description containing one of them yields a pattern in which it is an operator, and the suggested rule does not match '
+                  f'the description it was made for', c)
     from ._tables import fold_str, module_value
     mi = sp.module
     subs = []          # (call, pattern expression, replacement, subject)
